@@ -157,6 +157,20 @@ Theorem C15_uvr_eq_direct_shared (R : M O bs bs) :
     log_density (O:=O) (mcol (O:=O) i input) mean (assembled_S (O:=O) U V R).
 Proof. exact: uvr_eq_direct_shared. Qed.
 
+(* the common use, V = U^T with symmetric positive definite blocks (any encoding):
+   the assembled covariance is SPD and every premise above is derived *)
+Theorem C15_sym_factor_assembled_spd rc (R : M O bs rc) :
+  (forall t, (t < nb)%N -> spd (blk R t)) ->
+  spd (assembled_S (O:=O) U (mtr (m:=d) (n:=k) U) R : 'M[F]_d).
+Proof. exact: assembled_sym_factor_spd. Qed.
+
+Theorem C15_uvr_eq_direct_sym_factor rc (R : M O bs rc) :
+  (forall t, (t < nb)%N -> spd (blk R t)) ->
+  forall i, (i < b)%N ->
+    List.nth i (log_density_uvr (O:=O) input mean U (mtr (m:=d) (n:=k) U) R) 0 =
+    log_density (O:=O) (mcol (O:=O) i input) mean (assembled_S (O:=O) U (mtr (m:=d) (n:=k) U) R).
+Proof. exact: uvr_eq_direct_sym_factor. Qed.
+
 (* the k x k matrix the factorised form inverts is invertible (derived) *)
 Theorem C15_uvr_capacitance_invertible rc (R : M O bs rc) :
   (forall t, (t < nb)%N -> blk R t \in unitmx) ->
@@ -250,6 +264,8 @@ Print Assumptions C15_uvr_det.
 Print Assumptions C15_uvr_eq_direct.
 Print Assumptions C15_uvr_eq_direct_per_block.
 Print Assumptions C15_uvr_eq_direct_shared.
+Print Assumptions C15_sym_factor_assembled_spd.
+Print Assumptions C15_uvr_eq_direct_sym_factor.
 Print Assumptions C15_uvr_capacitance_invertible.
 Print Assumptions C15_density_uvr_exp.
 Print Assumptions C15_density_exp.
